@@ -165,6 +165,22 @@ add("C17", "fire", "lower clamp removed", "black_it/utils/base.py", "np.maximum(
 add("C17", "fire", "first grid for every column", "black_it/utils/base.py", "get_closest(param_grid[i], data[:, i])", "get_closest(param_grid[0], data[:, i])", "R2")
 add("C17", "fire", "returns the values", "black_it/utils/base.py", "return sorted_array[idxs]", "return values", "R1")
 add("C17", "silent", "rename idxs", "black_it/utils/base.py", "idxs", "positions")
+DD_OLD = '    for i in range(data.shape[1]):\n        digitalized_data[:, i] = get_closest(param_grid[i], data[:, i])\n'
+add("C17", "silent", "digitize: enumerate over the grids", "black_it/utils/base.py", DD_OLD,
+    "    for i, grid in enumerate(param_grid):\n        digitalized_data[:, i] = get_closest(grid, data[:, i])\n")
+add("C17", "silent", "digitize: zip over grids and columns", "black_it/utils/base.py", DD_OLD,
+    "    for i, (grid, column) in enumerate(zip(param_grid, data.T)):\n        digitalized_data[:, i] = get_closest(grid, column)\n")
+add("C17", "silent", "digitize: local for the column", "black_it/utils/base.py", DD_OLD,
+    "    for i in range(len(param_grid)):\n        column = data[:, i]\n        digitalized_data[:, i] = get_closest(param_grid[i], column)\n")
+add("C17", "silent", "digitize: column_stack of a comprehension", "black_it/utils/base.py",
+    DD_OLD + "\n    return digitalized_data\n",
+    "    return np.column_stack([get_closest(grid, column) for grid, column in zip(param_grid, data.T)])\n")
+add("C17", "fire", "digitize: enumerate with shifted grid", "black_it/utils/base.py", DD_OLD,
+    "    for i, grid in enumerate(param_grid):\n        digitalized_data[:, i] = get_closest(grid, data[:, i - 1])\n", "R2")
+add("C17", "fire", "digitize: zip pairs grids with rows", "black_it/utils/base.py", DD_OLD,
+    "    for i, (grid, column) in enumerate(zip(param_grid, data)):\n        digitalized_data[:, i] = get_closest(grid, column)\n", "R2")
+add("C17", "fire", "digitize: loop skips the last column", "black_it/utils/base.py", DD_OLD,
+    "    for i in range(data.shape[1] - 1):\n        digitalized_data[:, i] = get_closest(param_grid[i], data[:, i])\n", "R2")
 # ------------------------------------------------------------------------------------------------ C18
 add("C18", "fire", "table rebuilt on set_samplers", CAL, "        self.update_samplers_id_table(samplers)\n", "        self.samplers_id_table = self._construct_samplers_id_table(list(samplers))\n", "R1")
 add("C18", "fire", "next id is table size", CAL, "sampler_id = max(self.samplers_id_table.values()) + 1", "sampler_id = len(self.samplers_id_table) - 1", "R1")
